@@ -78,6 +78,7 @@ inductive Ev
   | testStarted  (t : TestInfo)              -- `printCurrentTestStarted(test)`
   | print        (text : Bytes)              -- `print(const char*)` coming from the test
   | failure      (f : Failure)               -- `printFailure(failure)`
+  | veryVerbose  (text : Bytes)              -- `printVeryVerbose(text)`: progress trace, shown only with -vv
   | testEnded    (ms : Nat) (checks : Nat)   -- `printCurrentTestEnded(result)`: test time, total check count
   | groupEnded   (ms : Nat)                  -- `printCurrentGroupEnded(result)`: group time
   | testsEnded   (s : Summary)               -- `printTestsEnded(result)`
@@ -246,12 +247,39 @@ def endOfGroup (t : Script) (rest : List Script) : Bool :=
   | [] => true
   | n :: _ => t.info.group != n.info.group
 
+def vv (s : String) : Ev := .veryVerbose (lit s)
+
+/-- the body is left early by a `failExit` -/
+def bodyExits : List Act → Bool
+  | [] => false
+  | .failExit _ _ _ :: _ => true
+  | _ :: as => bodyExits as
+
+/-- progress trace of `runOneTestInCurrentProcess` / `Utest::run` up to the test body -/
+def traceBefore : List Ev :=
+  [vv "\n-- before runAllPreTestAction: ", vv "\n-- after runAllPreTestAction: ", vv "\n---- before createTest: ",
+   vv "\n---- after createTest: ", vv "\n------ before runTest: ", vv "\n-------- before setup: ",
+   vv "\n-------- after  setup: ", vv "\n----------  before body: "]
+
+/-- … between the body and the post-test actions; "after body" is skipped when the body was left by
+    an exception -/
+def traceBetween (acts : List Act) : List Ev :=
+  (if bodyExits acts then [] else [vv "\n----------  after body: "]) ++
+  [vv "\n--------  before teardown: ", vv "\n--------  after teardown: ", vv "\n------ after runTest: ",
+   vv "\n---- before destroyTest: ", vv "\n---- after destroyTest: ", vv "\n-- before runAllPostTestAction: "]
+
+def traceAfter : List Ev := [vv "\n-- after runAllPostTestAction: "]
+
+/-- everything a running test sends between `testStarted` and `testEnded` -/
+def testInner (t : TestInfo) (acts : List Act) : List Ev :=
+  traceBefore ++ (actEvs t acts ++ (traceBetween acts ++ (postEvs t acts ++ traceAfter)))
+
 /-- `currentTestStarted; runOneTest; currentTestEnded` for a test that is not filtered out.
     An ignored shell only counts itself. -/
 def testEvs (t : Script) (r : R) : List Ev :=
   if t.info.willRun then
     .testStarted t.info ::
-      (actEvs t.info t.acts ++ (postEvs t.info t.acts ++ [.testEnded (actTicks t.acts) (r.checks + actChecks t.acts)]))
+      (testInner t.info t.acts ++ [.testEnded (actTicks t.acts) (r.checks + actChecks t.acts)])
   else
     [.testStarted t.info, .testEnded 0 r.checks]
 
